@@ -330,3 +330,61 @@ def edge_cover(nodes, init, edges, extend=6):
             ext += 1
         tests.append((root, p))
     return tests, len(covered)
+
+
+# ------------------------------------------------- execute / monitor / triage helpers
+
+def execute(vh, cmd, wd, scenarios, seed, name, extra=(), timeout=1800, env=None):
+    """Runs `vh <cmd> --seed S --scenarios file` and returns the recorded trace path."""
+    sp = os.path.join(wd, name + ".scenarios.ndjson")
+    write_ndjson(sp, scenarios)
+    tp = os.path.join(wd, name + ".trace.ndjson")
+    e = dict(os.environ)
+    if env:
+        e.update(env)
+    with open(tp, "w") as out:
+        try:
+            p = subprocess.run([vh, cmd, "--seed", str(seed), "--scenarios", sp] + list(extra), stdout=out,
+                               stderr=subprocess.PIPE, text=True, timeout=timeout, env=e)
+        except subprocess.TimeoutExpired:
+            raise Infra(f"vh {cmd} timed out")
+    if p.returncode != 0:
+        raise Infra(f"vh {cmd} failed rc={p.returncode}: " + p.stderr[-3000:])
+    return tp
+
+
+def monitor(wd, module, cfg, trace_path, timeout=3600, heap=None):
+    """Runs a total verdict monitor over a trace file; returns (verdict dict, TLCResult)."""
+    n = sum(1 for _ in open(trace_path))
+    target = os.path.join(wd, "trace.ndjson")
+    if os.path.abspath(trace_path) != target:
+        shutil.copy(trace_path, target)
+    r = tlc(wd, module, cfg, workers=1, timeout=timeout, heap=heap, extra=["-noGenerateSpecTE"])
+    vs = r.prints("VERDICT")
+    if r.rc != 0 or len(vs) != 1:
+        raise Infra(f"{module} did not produce a verdict (rc={r.rc}):\n" + r.out[-3000:])
+    v = vs[0]
+    if v["consumed"] != n:
+        raise Infra(f"{module} consumed {v['consumed']} of {n} events")
+    return v, r
+
+
+def inits(trace_path):
+    m = {}
+    with open(trace_path) as f:
+        for line in f:
+            if '"ev":"Init"' in line:
+                e = json.loads(line)
+                m[e["t"]] = e
+    return m
+
+
+def events_of(trace_path, t):
+    out = []
+    with open(trace_path) as f:
+        for line in f:
+            if f'"t":{t},' in line or f'"t":{t}}}' in line:
+                e = json.loads(line)
+                if e["t"] == t:
+                    out.append(e)
+    return out
